@@ -18,7 +18,7 @@ import (
 // One symptom per execution: the failures of an execution are collected and
 // only the one with the highest priority is reported, so that one root cause
 // does not surface under a dozen fingerprints.
-var prio = []string{"subscribe-failed", "emit-error", "=event-dropped-at-cancel", "event-duplicated", "foreign-signal-delivered", "event-order", "event-lost", "event-lost-after-ack",
+var prio = []string{"subscribe-failed", "call-failed", "emit-error", "=event-dropped-at-cancel", "event-duplicated", "foreign-signal-delivered", "event-order", "event-lost", "event-lost-after-ack",
 	"late-event-lost", "disturbed-by-other-unsubscribe", "event-after-cancel", "channel-not-closed", "event-after-unregister-ack"}
 
 type failure struct{ clause, detail string }
@@ -337,6 +337,58 @@ func body(sameClient bool, fine bool, rejoin bool) func() {
 		c1.LogTaps("conn1")
 		vrt.Observe("A1=%s A2=%s B=%s", got(a1), got(a2), got(b1))
 	}
+}
+
+// besideCaller: a goroutine subscribes while another goroutine of the same
+// client makes ordinary calls (the answer handlers of the calls and the event
+// handler of the subscription share the connection's handler table). Only the
+// subscription and the calls are explored; the events are emitted afterwards
+// on the default schedule: the subscriber receives every one of them, its
+// channel stays open until it cancels, the calls get their results.
+func besideCaller() {
+	collected = nil
+	w := fx.Start(bus.Yes{})
+	c1 := w.MustConnect()
+	pA, pCall := c1.Probe(1), c1.Probe(1)
+	vrt.Explore()
+	var a1 *window
+	var ems []emission
+	callErr := 0
+	wa := vrt.GoWorker("subscriber", func() { a1 = subscribe("S", pA, c1) })
+	wc := vrt.GoWorker("caller", func() {
+		for i := int32(0); i < 2; i++ {
+			if v, err := pCall.Echo(5 + i); err != nil || v != probe.EchoResult(5+i) {
+				callErr++
+				failf("call-failed/beside-subscriber", "echo(%d) on the subscriber's connection failed: %v (result %d)", 5+i, err, v)
+			}
+		}
+	})
+	vrt.Quiesce()
+	fx.Settle(wa, wc)
+	vrt.Freeze()
+	for _, n := range []int32{1, 2, 3} {
+		e := emission{"tick", n, vrt.Step(), 0}
+		if err := w.Root.Helper.SignalTick(n); err != nil {
+			failf("emit-error", "emitting tick(%d) failed: %v", n, err)
+		}
+		vrt.Quiesce()
+		e.end = vrt.Step()
+		ems = append(ems, e)
+	}
+	if a1 != nil && a1.err == nil {
+		if a1.closed {
+			failf("event-lost/channel-closed-while-subscribed", "the subscription channel was closed although the subscriber never cancelled: got %v", a1.got)
+		}
+		a1.check("S", ems)
+		a1.stop()
+		vrt.Quiesce()
+		if !a1.closed {
+			failf("channel-not-closed/S", "the subscription channel is still open after its cancel function returned")
+		}
+	}
+	fx.Settle()
+	flush()
+	vrt.Observe("S=%v callErr=%d", a1 != nil && a1.err == nil, callErr)
 }
 
 // histories: sequential conformance (no concurrency, every step runs to
@@ -759,6 +811,8 @@ func cycles() {
 }
 
 func init() {
+	reg.Register(&reg.Scenario{Property: "C13", Name: "subscriber-beside-caller", Body: besideCaller, Quick: 2, Thorough: 3,
+		Doc: "one goroutine subscribes while another goroutine of the same client makes two calls (answer handlers and event handler share the connection's handler table); three events afterwards: all received, channel open until cancel, calls answered"})
 	reg.Register(&reg.Scenario{Property: "C13", Name: "twelve-subscribers", Body: manySubscribers, Quick: 0, Thorough: 0,
 		Doc: "twelve subscribers on twelve connections, one of them (each in turn, or none) leaves, two events: every remaining subscriber receives both once"})
 	reg.Register(&reg.Scenario{Property: "C13", Name: "four-subscription-cycles", Body: cycles, Quick: 0, Thorough: 1,
